@@ -4180,6 +4180,60 @@ func (d *Document) parseAnchorDrawing(decoder *xml.Decoder, startElement xml.Sta
 				if err := d.skipElement(decoder, t.Name.Local); err != nil {
 					return nil, err
 				}
+			case "simplePos":
+				anchor.SimplePosition = &SimplePosition{X: getAttributeValue(t.Attr, "x"), Y: getAttributeValue(t.Attr, "y")}
+				if err := d.skipElement(decoder, t.Name.Local); err != nil {
+					return nil, err
+				}
+			case "positionH":
+				align, offset, err := d.parseDrawingPosition(decoder, t.Name.Local)
+				if err != nil {
+					return nil, err
+				}
+				anchor.PositionH = &HorizontalPosition{RelativeFrom: getAttributeValue(t.Attr, "relativeFrom"), Align: align, PosOffset: offset}
+			case "positionV":
+				align, offset, err := d.parseDrawingPosition(decoder, t.Name.Local)
+				if err != nil {
+					return nil, err
+				}
+				anchor.PositionV = &VerticalPosition{RelativeFrom: getAttributeValue(t.Attr, "relativeFrom"), Align: align, PosOffset: offset}
+			case "effectExtent":
+				anchor.EffectExtent = &EffectExtent{
+					L: getAttributeValue(t.Attr, "l"), T: getAttributeValue(t.Attr, "t"),
+					R: getAttributeValue(t.Attr, "r"), B: getAttributeValue(t.Attr, "b"),
+				}
+				if err := d.skipElement(decoder, t.Name.Local); err != nil {
+					return nil, err
+				}
+			case "wrapTight":
+				polygon, err := d.parseWrapPolygon(decoder, t.Name.Local)
+				if err != nil {
+					return nil, err
+				}
+				anchor.WrapTight = &WrapTight{
+					WrapText: getAttributeValue(t.Attr, "wrapText"), DistL: getAttributeValue(t.Attr, "distL"),
+					DistR: getAttributeValue(t.Attr, "distR"), WrapPolygon: polygon,
+				}
+			case "wrapThrough":
+				polygon, err := d.parseWrapPolygon(decoder, t.Name.Local)
+				if err != nil {
+					return nil, err
+				}
+				anchor.WrapThrough = &WrapThrough{
+					WrapText: getAttributeValue(t.Attr, "wrapText"), DistL: getAttributeValue(t.Attr, "distL"),
+					DistR: getAttributeValue(t.Attr, "distR"), WrapPolygon: polygon,
+				}
+			case "wrapTopAndBottom":
+				anchor.WrapTopAndBottom = &WrapTopAndBottom{DistT: getAttributeValue(t.Attr, "distT"), DistB: getAttributeValue(t.Attr, "distB")}
+				if err := d.skipElement(decoder, t.Name.Local); err != nil {
+					return nil, err
+				}
+			case "cNvGraphicFramePr":
+				framePr, err := d.parseCNvGraphicFramePr(decoder)
+				if err != nil {
+					return nil, err
+				}
+				anchor.CNvGraphicFramePr = framePr
 			default:
 				if err := d.skipElement(decoder, t.Name.Local); err != nil {
 					return nil, err
@@ -4188,6 +4242,105 @@ func (d *Document) parseAnchorDrawing(decoder *xml.Decoder, startElement xml.Sta
 		case xml.EndElement:
 			if t.Name.Local == "anchor" {
 				return anchor, nil
+			}
+		}
+	}
+}
+
+// parseDrawingPosition 解析浮动图片的水平/垂直位置（wp:align 或 wp:posOffset）
+func (d *Document) parseDrawingPosition(decoder *xml.Decoder, elementName string) (*PosAlign, *PosOffset, error) {
+	var align *PosAlign
+	var offset *PosOffset
+	for {
+		token, err := decoder.Token()
+		if err != nil {
+			return nil, nil, WrapError("parse_drawing_position", err)
+		}
+		switch t := token.(type) {
+		case xml.StartElement:
+			switch t.Name.Local {
+			case "align":
+				value, err := d.readElementText(decoder, "align")
+				if err != nil {
+					return nil, nil, err
+				}
+				align = &PosAlign{Value: value}
+			case "posOffset":
+				value, err := d.readElementText(decoder, "posOffset")
+				if err != nil {
+					return nil, nil, err
+				}
+				offset = &PosOffset{Value: value}
+			default:
+				if err := d.skipElement(decoder, t.Name.Local); err != nil {
+					return nil, nil, err
+				}
+			}
+		case xml.EndElement:
+			if t.Name.Local == elementName {
+				return align, offset, nil
+			}
+		}
+	}
+}
+
+// parseWrapPolygon 解析紧密/穿透环绕元素中的环绕多边形
+func (d *Document) parseWrapPolygon(decoder *xml.Decoder, elementName string) (*WrapPolygon, error) {
+	var polygon *WrapPolygon
+	for {
+		token, err := decoder.Token()
+		if err != nil {
+			return nil, WrapError("parse_wrap_polygon", err)
+		}
+		switch t := token.(type) {
+		case xml.StartElement:
+			switch t.Name.Local {
+			case "wrapPolygon":
+				polygon = &WrapPolygon{}
+			case "start":
+				if polygon != nil {
+					polygon.Start = &PolygonStart{X: getAttributeValue(t.Attr, "x"), Y: getAttributeValue(t.Attr, "y")}
+				}
+			case "lineTo":
+				if polygon != nil {
+					polygon.LineTo = append(polygon.LineTo, PolygonLineTo{X: getAttributeValue(t.Attr, "x"), Y: getAttributeValue(t.Attr, "y")})
+				}
+			}
+		case xml.EndElement:
+			if t.Name.Local == elementName {
+				return polygon, nil
+			}
+		}
+	}
+}
+
+// parseCNvGraphicFramePr 解析图形框架的非可视属性
+func (d *Document) parseCNvGraphicFramePr(decoder *xml.Decoder) (*CNvGraphicFramePr, error) {
+	framePr := &CNvGraphicFramePr{}
+	for {
+		token, err := decoder.Token()
+		if err != nil {
+			return nil, WrapError("parse_cnv_graphic_frame_pr", err)
+		}
+		switch t := token.(type) {
+		case xml.StartElement:
+			if t.Name.Local == "graphicFrameLocks" {
+				framePr.GraphicFrameLocks = &GraphicFrameLocks{
+					Xmlns:          "http://schemas.openxmlformats.org/drawingml/2006/main",
+					NoChangeAspect: getAttributeValue(t.Attr, "noChangeAspect"),
+					NoCrop:         getAttributeValue(t.Attr, "noCrop"),
+					NoMove:         getAttributeValue(t.Attr, "noMove"),
+					NoResize:       getAttributeValue(t.Attr, "noResize"),
+					NoRot:          getAttributeValue(t.Attr, "noRot"),
+					NoSelect:       getAttributeValue(t.Attr, "noSelect"),
+				}
+			}
+			if err := d.skipElement(decoder, t.Name.Local); err != nil {
+				return nil, err
+			}
+		case xml.EndElement:
+			if t.Name.Local == "cNvGraphicFramePr" {
+				return framePr, nil
 			}
 		}
 	}
@@ -4360,9 +4513,15 @@ func (d *Document) parseNvPicPr(decoder *xml.Decoder, startElement xml.StartElem
 					return nil, err
 				}
 			case "cNvPicPr":
-				cNvPicPr := &CNvPicPr{}
-				// 解析picLocks如果存在
-				nvPicPr.CNvPicPr = cNvPicPr
+				nvPicPr.CNvPicPr = &CNvPicPr{}
+			case "picLocks":
+				// cNvPicPr 的子元素
+				if nvPicPr.CNvPicPr != nil {
+					nvPicPr.CNvPicPr.PicLocks = &PicLocks{
+						NoChangeAspect:     getAttributeValue(t.Attr, "noChangeAspect"),
+						NoChangeArrowheads: getAttributeValue(t.Attr, "noChangeArrowheads"),
+					}
+				}
 				if err := d.skipElement(decoder, t.Name.Local); err != nil {
 					return nil, err
 				}
